@@ -32,7 +32,7 @@ def main():
     res = O.Result("random injective maps (1..8 circuit qubits into registers up to 70) x count dicts with junk bits "
                    "(model correspondence); random circuits (<=4 qubits) x random injective maps (register <=7) for "
                    "the distribution/unitary checks")
-    n_corr = 250 if a.tier == "quick" else 3000
+    n_corr = 600 if a.tier == "quick" else 3000
     terms, reals, keyinfo = [], [], []
     for _ in range(n_corr):
         k = rng.randint(1, 8)
@@ -74,7 +74,7 @@ def main():
         res.broken.append({"what": "correspondence C18: model evaluation failed", "detail": str(e)[-1200:]})
     res.sample({"mapping": keyinfo[0][0], "counts": keyinfo[0][1], "impl": reals[0]})
     # distributions
-    for _ in range(60 if a.tier == "quick" else 800):
+    for _ in range(150 if a.tier == "quick" else 800):
         n = rng.randint(1, 4)
         c = QuantumCircuit(n)
         for _ in range(rng.randint(1, 8)):
